@@ -47,6 +47,12 @@ type isetQuery struct {
 }
 
 func isetRunImpl(ops []isetOp, qs []isetQuery) (out string) {
+	return isetRunImplMode(ops, qs, false)
+}
+
+// isetRunImplMode: with interleaved, every query is also asked after every operation of the history (on the same
+// set); the answers returned are those after the last one. What was asked before must not matter.
+func isetRunImplMode(ops []isetOp, qs []isetQuery, interleaved bool) (out string) {
 	defer func() {
 		if r := recover(); r != nil {
 			out = fmt.Sprintf("panic:%v", r)
@@ -54,6 +60,11 @@ func isetRunImpl(ops []isetOp, qs []isetQuery) (out string) {
 	}()
 	s := &util.IgnoreSet{}
 	for _, o := range ops {
+		if interleaved {
+			for _, q := range qs {
+				s.Contains(q.code, token.Pos(q.pos))
+			}
+		}
 		if o.global {
 			s.AddModuleIgnore(o.codes)
 		} else {
@@ -240,6 +251,17 @@ func corrISet(tier string, seed uint64, replay string) *res.Summary {
 			}
 			cases = append(cases, hcase{ops, myqs, tag})
 		}
+		// every number of scoped suppressions from 1 to 70 (and some more), each queried inside and outside its range
+		for n := 1; n <= 70 || (tier == "thorough" && n <= 300); n++ {
+			var ops []isetOp
+			var myqs []isetQuery
+			code := alphabet[1+n%4]
+			for j := 0; j < n; j++ {
+				ops = append(ops, isetOp{codes: []string{code}, start: 3*j + 1, end: 3*j + 2})
+				myqs = append(myqs, isetQuery{code, 3*j + 1}, isetQuery{code, 3*j + 3})
+			}
+			cases = append(cases, hcase{ops, myqs, "many-markers"})
+		}
 		// boundary outside the theorem's hypothesis (start = 0): run and log, never judged
 		cases = append(cases, hcase{[]isetOp{{codes: []string{"IMM01"}, start: 0, end: 2}, {codes: []string{"IMM01"}, start: 3, end: 4}}, qs, "boundary-start0"})
 	}
@@ -263,6 +285,25 @@ func corrISet(tier string, seed uint64, replay string) *res.Summary {
 			c := cases[i]
 			impl := isetRunImpl(c.ops, c.qs)
 			model := reps[i-lo]
+			// the same history with every query also asked after every step: same final answers
+			if impl == model && len(c.ops) <= 6 && (len(c.ops) <= 2 || i%3 == 0) {
+				if il := isetRunImplMode(c.ops, c.qs, true); il != impl {
+					sum.Count("interleaved-queries")
+					k := 0
+					for k < len(il) && k < len(impl) && il[k] == impl[k] {
+						k++
+					}
+					q := isetQuery{}
+					if k < len(c.qs) {
+						q = c.qs[k]
+					}
+					sum.Disagree(res.Disagreement{Kind: "impl-vs-spec", Input: reqs[i-lo] + " (every query also asked after every operation)", Impl: il, Model: model,
+						Clause:  "C16: the answer depends on the history of suppressions only (GGV.Props.C16.contains_iff)",
+						Details: fmt.Sprintf("query %s@%d answers differently when the same queries were already asked while the history was being built", q.code, q.pos)})
+					continue
+				}
+				sum.Count("interleaved-queries")
+			}
 			sum.Evaluations++
 			sum.Count(c.tag)
 			if strings.Contains(impl, "1") && strings.Contains(impl, "0") {
